@@ -284,3 +284,21 @@ _reg(
     "DESIGN.md 3/C19",
     "Exploration over all binding specs of the working tree x call forms derived from the installed library's signatures.",
 )
+
+_reg(
+    "C06",
+    "exploration",
+    "cases = 60 control-flow programs (cond with bool / int-derived / data-derived predicates, captured constants and tracers, pass-through "
+    "branches, tuple operands, nested; two-way switch incl. out-of-range index; while_loop with counter, data-dependent exit, threshold stops, "
+    "captured arrays, multiple carries of different rank, float counter, nested, in cond, cond inside, vmapped; fori_loop with static bounds "
+    "incl. lower != 0, zero and negative trip count, index used in the body, nested, in a branch; scan with 0/1/2/5 steps with and without xs, "
+    "several xs, tuple carries, symbolic length, nested, in cond, cond / while inside, captures, integer xs) each swept over steering inputs "
+    "(both predicate values; n in {-3,0,1,2,5,17}; thresholds that stop after 0,1,k iterations; lengths) + unsupported variants (3-way switch, "
+    "reverse scan, traced fori bound, @onnx_function in a loop body: must raise or agree) + the registered control-flow testcases. Every loop "
+    "is bounded by construction. evaluations = (program, steering input) executions compared with eager JAX; non-trivial = ORT ran and >= 1 "
+    "finite element was compared; distinct = (program, steering input).",
+    (150, 130, 400, 300),
+    "differential runtime monitor over steering inputs: ORT carried values / stacked outputs vs eager JAX for every branch choice and trip count",
+    "DESIGN.md 3/C06",
+    "Exploration over a hand-written control-flow grammar swept over steering inputs including zero and one iteration.",
+)
